@@ -241,7 +241,7 @@ def leg_cli(run, thorough, seed):
     root = vlib.workfile("c12-cli")
     shutil.rmtree(root, ignore_errors=True)
     events = []
-    ref = None
+    results = []
     for mask in masks:
         d = os.path.join(root, "m%d" % mask)
         cfg = os.path.join(d, "cfg", "rink")
@@ -268,15 +268,36 @@ def leg_cli(run, thorough, seed):
         run.count()
         run.nontrivial("cli:%d" % mask)
         events.append({"ev": "loads", "set": "cli-user-files", "loads": 1, "digest": dg})
-        if ref is None:
-            ref = (mask, text)
-            run.sample({"leg": "CLI", "split_mask": mask, "answers": outs[:4]})
-            if "verifa" not in text or "No such unit" in outs[1] or outs[1].startswith("1|"):
-                raise vlib.ToolError("CLI leg: the reference split does not load the user definitions: %s" % outs[:3])
-        elif text != ref[1]:
-            bad = [(q, a, b) for q, a, b in zip(CLI_QUERIES, ref[1].split("\n"), outs) if a != b]
+        results.append((mask, here, there, outs))
+    # the reference is the answer most splits give; it must be a real answer (the definitions are valid)
+    import collections
+    cnt = collections.Counter("\n".join(o) for _, _, _, o in results)
+    reftext = cnt.most_common(1)[0][0]
+    refouts = reftext.split("\n")
+    loaded = [o for _, _, _, o in results if o[0].startswith("0|") and "verifa" in o[0]]
+    if not loaded:
+        # is it the data or the splitting? the same definitions appended to the bundled file as ONE text, loaded by the library
+        one = vlib.workfile("c12-onefile.units")
+        open(one, "w").write(open(os.path.join(vlib.REPO, "core", "definitions.units")).read() + "\n" + "\n".join(USER_DEFS) + "\n")
+        import evalkit
+        r1 = evalkit.run_eval([{"qs": "1 verife -> m^2 s"}, {"qs": "verifr"}], ctx="file:" + one, tag="c12one")
+        if all("crash" not in r and r["obs"]["t"] not in ("err",) for r in r1):
+            run.violation({"engine": "cli-split", "kind": "no-split-loads", "answers": results[0][3][:2]},
+                          "definitions that load as one text also load when spread over the bundled file, ./ and the config dir",
+                          {"first_answer": results[0][3][0][:400]}, "cli-split")
+            shutil.rmtree(root, ignore_errors=True)
+            return events
+        raise vlib.ToolError("CLI leg: no split loads the user definitions: %s" % results[0][3][:2])
+    if not (refouts[0].startswith("0|") and "verifa" in refouts[0]):
+        refouts = loaded[0]
+        reftext = "\n".join(refouts)
+    run.sample({"leg": "CLI", "answers": refouts[:4]})
+    for mask, here, there, outs in results:
+        if "\n".join(outs) != reftext:
+            bad = [(q, a, b) for q, a, b in zip(CLI_QUERIES, refouts, outs) if a != b]
             run.violation({"engine": "cli-split", "mask": mask, "here": here, "there": there, "query": bad[0][0]},
-                          "the same answers as for the split with mask %d" % ref[0], {"expected": bad[0][1], "observed": bad[0][2]}, "cli-split")
+                          "the same answers for every way of spreading the definitions over the two files",
+                          {"expected": bad[0][1][:300], "observed": bad[0][2][:300]}, "cli-split")
     shutil.rmtree(root, ignore_errors=True)
     log("[C12] CLI: %d splits of %d user definitions over ./ and the config dir" % (len(masks), n))
     return events
